@@ -109,6 +109,12 @@ CHECKS = {
         text="The real LFRic generator is run on an algorithm file synthesised for every entry of BUILTIN_MAP under distributed memory on/off x annexed-DoF computation on/off x OpenMP variants, and on multi-built-in invokes over fields of three differently sized function spaces with LFRicLoopFuseTrans applied forwards and backwards. The oracle is read at run time from doc/user_guide/dynamo0p3.rst (signature and array-syntax formula of each built-in); the documented range is all DoFs (no DM), owned DoFs (DM, always for reductions) or owned+annexed (DM with COMPUTE_ANNEXED_DOFS). The generated invoke and the documented statements are executed symbolically over the same symbolic field data, scalars and DoF counts (0 <= owned <= annexed <= undf <= K); z3 decides that every field agrees at every DoF (updated inside the range, untouched outside) and every reduction result agrees. Witnesses are replayed by concrete re-execution and a plain-Python evaluation of the documented formula.",
         note="Bounds: undf <= 3 (quick) / 4 (thorough) per function space (DoF loops unrolled), exact arithmetic. LFRic infrastructure is a stub contract (vlib/fsym/lfric.py): proxies alias fields, one data array per field, get_sum is the identity (one rank), halo calls do not touch data. setval_random and reprod reductions are outside the claim. Trusted: fparser2, z3, fsym, the stub contract, the doc parser.",
         ref="5/C20"),
+    "C22": dict(
+        level="model_checking", engine="fsym",
+        technique="abstract execution of the generated distributed-memory PSy layer with a symbolic halo state per field (recorded clean depth, really valid depth) and summarised loops; z3 decides every read obligation and every observation of the recorded state for all initial states, stencil extents and mesh halo depths",
+        text="Invokes of 1-3 synthesised kernels (GH_INC / GH_READINC / GH_WRITE / GH_READWRITE writers on continuous, discontinuous and any_space fields; readers with and without cross/region/x1d stencils of literal or run-time extent) and built-ins are generated with distributed memory on under both annexed-DoF settings, then put through accepted histories (<= 3 steps) of Dynamo0p3RedundantComputationTrans (depth 1, 2, max), Dynamo0p3ColourTrans, Dynamo0p3AsyncHaloExchangeTrans, DynamoOMPParallelLoopTrans and Dynamo0p3OMPLoopTrans+OMPParallelTrans regions. fsym executes the emitted routine with halo_exchange/set_dirty/set_clean/is_dirty acting on the abstract state (is_dirty(d) == d > recorded depth at that moment) and every loop nest classified from its emitted upper bound (cells to halo depth h, DoFs to owned/annexed/halo depth). z3 decides P1: each field a kernel or built-in reads is valid to the depth it reaches (h, plus the stencil extent; h-1 for GH_INC), and P2: wherever the recorded state is observed (each is_dirty call, routine exit) it is no cleaner than the contents. Witnesses are replayed by an independent line-by-line simulator of the emitted text from the witness' concrete initial state.",
+        note="Unbounded in mesh size, halo depth and extents (symbolic); histories <= 3 steps, invokes <= 3 calls (7 hand-written + 16/160 drawn). Executions needing a halo deeper than the mesh has are outside the claim. Annexed-DoF validity is NOT tracked (the property speaks of halo depths; see DESIGN 10.5), nor are operators, field vectors, inter-grid kernels, reductions. The run-time rules are a restatement of the developer guide. Trusted: fparser2, z3, fsym, the stub contract.",
+        ref="5/C22"),
     "C23": dict(
         level="translation_validation", engine="fsym",
         technique="SMT race query over the symbolically executed LFRic PSy layer: every DO loop is summarised by a Skolem loop variable; for each loop carrying an OpenMP/OpenACC worksharing directive z3 decides whether two distinct iterations can write one element of an incremented field, with dofmaps as uninterpreted functions and the mesh axioms (colour / discontinuity / injectivity) instantiated at the two cells",
